@@ -21,6 +21,16 @@ CHECKS.update({
          "Every statement tree up to the node bound (nesting <= 3) over branches, both loop kinds, break/continue/输出 and expression statements runs as program body and as method body with a trace planted at every position; result and ordered trace must equal the reference interpreter's.",
          "Trusted: the reference interpreter (manual ch.7/8). Trees above the bound are not covered.",
          "DESIGN.md §4 C02"),
+ "C03": ("exploration",
+         "bounded exhaustive AST enumeration (E1) x deviation-bounded layout DFS (E3) against the parser",
+         "Every statement tree up to the node bound over all 14 statement kinds, every program-section combination and every expression form in every slot is rendered under every layout vector with at most d deviations from the default layout; the dumped parser tree must equal the generator's tree. Every single-token corruption of every default rendering must be rejected or yield a complete tree.",
+         "Trusted: the harness renderer's reading of the manual's layout rules and the tree dumper. ASTs above the bound and layouts with more than d simultaneous deviations are not covered.",
+         "DESIGN.md §4 C03"),
+ "C05": ("exploration",
+         "bounded exhaustive enumeration (E1) of symbol sequences and of all single/double mutations of a corpus",
+         "Every symbol sequence up to the length bound over a 34-symbol hostile alphabet and every truncation/deletion/duplication/insertion of every corpus program is compiled: it must terminate, return a tree xor a positioned SyntaxError, returned trees must be complete and the rendered error must quote a line of the source.",
+         "Trusted: hang watchdog (20 s vs microseconds), completeness walker. Longer inputs and symbols outside the alphabet are not covered.",
+         "DESIGN.md §4 C05"),
 })
 NOT_YET = {}
 props = [json.loads(l) for l in open(f"{V}/properties.jsonl")]
